@@ -1,4 +1,5 @@
 """C18 — y-sync handshake and awareness: sibling protocols, handler dataflow, clock-guarded merge."""
+import re
 from ylib import facts as F
 from ylib import skel as SK
 from ylib.formula import Formulas, truth_check, fshow, atoms_of
@@ -82,6 +83,19 @@ def rule_b(R, ctx):
     ret = v.terms.local(0, 20)
     ok = any(t[0] == "agg" and t[1].endswith("SyncMessage::SyncStep2") and term_has_call(t, "re:encode_state_as_update_v1$") for t in walk(ret))
     R.ob("C18.b", fn, "replies-step2", ok, "returns Some(Message::Sync(SyncStep2(update))): %s" % ok)
+    # the reply is the diff on every path: the payload is exactly the encode call's result (no alternative definition) and
+    # the call lies on every path to the normal return
+    pay = [simp_deep(t[2][0]) for t in walk(ret) if t[0] == "agg" and t[1].endswith("SyncMessage::SyncStep2") and t[2]]
+    exact = bool(pay) and all(p[0] == "call" and re.search(r"encode_state_as_update_v1$", F.strip_generics(p[1])) for p in pay)
+    cfg = fn.cfg()
+    rets = [bb for bb, b in enumerate(fn.blocks) if "ret" in b["t"] and not b.get("cleanup") and bb in cfg.reach]
+    # paths that return Err(..) before answering are not replies; the reply construction itself must be dominated by the call
+    aggs = [i for i, j, st in fn.stmts() if "agg" in st["rv"] and str(st["rv"]["agg"].get("variant")) == "SyncStep2"]
+    dom = bool(enc) and bool(aggs) and all(any(cfg.dominates(c.bb, a) for c in enc) for a in aggs)
+    R.ob("C18.b", fn, "step2-is-the-diff", exact and dom,
+         "SyncStep2 payload is the result of encode_state_as_update_v1(&sv) on every path" if exact and dom else
+         "SyncStep2 payload has a definition other than encode_state_as_update_v1(&sv) (%s): deletions do not advance the state "
+         "vector, so a reply that skips the diff loses the delete set" % [sshow(p, 6) for p in pay])
     s2 = Y.fn(P + "::handle_sync_step2")
     sv2 = FnView(s2)
     ap = s2.calls_to("yrs::transaction::TransactionMut::apply_update")
